@@ -630,7 +630,7 @@ pub fn build(tier: &str) -> SimCheck {
         scenarios,
         oracle: Box::new(oracle),
         bound: if thorough { 3 } else { 2 },
-        limits: Limits { max_wall_s: if thorough { 3000.0 } else { 55.0 }, ..Default::default() },
+        limits: Limits { max_wall_s: if thorough { 3000.0 } else { 150.0 }, ..Default::default() },
         rule: "the accept/signal/drain loop of src/main.rs (extracted verbatim at build time) runs in the sim with the real client tasks; population = client programs (idle, slow / never-ending / extended / COPY transactions across the signal, autocommit, leaves before the signal by Terminate / hard drop / hard drop in a transaction / failed login, a cancel-request connection before the signal, a client with half a batch buffered (Parse Bind, no Sync), arrives after the signal early and late, TCP connection accepted before the signal but startup and password sent after it, session-mode, drops after the signal, statement racing the signal) + admin client (connected before, arriving after, query bytes straddling the signal) x signal pattern (SIGINT, admin SHUTDOWN, SIGTERM, SIGINT twice, SIGHUP then SIGINT, SIGINT then SIGTERM, SIGHUP only, none, SIGINT at time 0, SIGINT while the pools are paused); all schedules with <= bound deviations; shutdown_timeout 1000 ms of virtual time".into(),
         assumptions: vec![
             "process exit = the extracted main loop returning; unix signals are delivered through channels with tokio's Signal::recv shape (coalescing of signals that arrive before a recv is not modelled: two SIGINTs are two events); the admin SHUTDOWN's kill(self, SIGINT) goes through the verif::signal hook".into(),
